@@ -6,8 +6,8 @@
 EXTENDS Template
 CONSTANTS Encodings          \* subset of {<<32, TRUE>>, <<32, FALSE>>, <<64, TRUE>>, <<64, FALSE>>} given as 1..4
 
-FullAns == [k \in 1..12 |-> [i \in 1..Len(QsF[k]) |-> QExp(F(FullF[k]), EbF[k], QsF[k][i])]]
-FullOpen == [k \in 1..12 |-> OpenExp(F(FullF[k]), "Any")]
+FullAns == [k \in 1..16 |-> [i \in 1..Len(QsF[k]) |-> QExp(F(FullF[k]), EbF[k], QsF[k][i])]]
+FullOpen == [k \in 1..16 |-> OpenExp(F(FullF[k]), "Any")]
 
 \* three stages so that the workers share the prefixes: encoding, block of 8 prefix lengths, prefix length
 VARIABLE c
@@ -20,8 +20,8 @@ Qs == QsF[c.enc]
 
 \* the complete file is what the template says it is (sanity of the builder and of the semantics)
 FullOk == LET k == c.enc IN
-          /\ EbF[k].ok /\ NSh(EbF[k]) = 7 /\ NPh(EbF[k]) = 2
-          /\ \A i \in {1, 2, 3, 4, 5, 6, 7, 8, 10, 11, 12, 13, 14, 15, 18, 19, 21} : FullAns[k][i].out = "ok"
+          /\ EbF[k].ok /\ NSh(EbF[k]) = 7 /\ NPh(EbF[k]) = 3
+          /\ \A i \in {1, 2, 3, 4, 5, 6, 7, 8, 10, 11, 12, 13, 14, 15, 18, 19, 21, 22} : FullAns[k][i].out = "ok"
           /\ FullAns[k][9].out = "err" /\ FullAns[k][16].out = "none" /\ FullAns[k][17].out = "none"
 
 Prop_C18 ==
